@@ -285,7 +285,74 @@ def whole_runs(chk):
             n, len(seen), k, a[max(0, k - 40):k + 30], b_[max(0, k - 40):k + 30]), {'job': 'solstat', 'files': files, 'runs': n})
     else:
         chk.ok()
+    creation_histories(chk, files, binary)
     chk.sample({'whole runs': '%d runs of the compiled binary over a directory of %d files (probe with one parameter per line, nested directories): identical reports' % (n, len(files))})
+
+
+def creation_histories(chk, files, binary):
+    """the same directory content (same names, same bytes) created in different orders on a file system that lists entries by creation
+    history (tmpfs: newest first): the file system then hands the entries to solstat in different orders; the reports must be identical"""
+    import itertools
+    import os
+    import shutil
+    import subprocess
+    import tempfile
+    base = None
+    try:
+        if os.path.isdir('/dev/shm') and os.access('/dev/shm', os.W_OK):
+            base = tempfile.mkdtemp(prefix='solstat-verif-c13-', dir='/dev/shm')
+            for n in ('p', 'q', 'r'):
+                open(os.path.join(base, n), 'w').close()
+            if os.listdir(base) == sorted(os.listdir(base)) and os.listdir(base) != ['r', 'q', 'p']:
+                pass
+            listed = os.listdir(base)
+            for n in ('p', 'q', 'r'):
+                os.remove(os.path.join(base, n))
+            if listed not in (['r', 'q', 'p'], ['p', 'q', 'r']):
+                shutil.rmtree(base); base = None
+    except OSError:
+        base = None
+    if base is None:
+        chk.extra['creation_histories'] = 'skipped: no file system at hand whose listing order follows the creation history'
+        return
+    try:
+        rels = sorted(files)
+        orders = [rels, rels[::-1]]
+        rng = chk.rng
+        for _ in range(4 if chk.quick else 16):
+            o = list(rels); rng.shuffle(o); orders.append(o)
+        seen, listings = {}, set()
+        for i, order in enumerate(orders):
+            root = os.path.join(base, 'h%d' % i)
+            proj = os.path.join(root, 'proj')
+            os.makedirs(proj)
+            # directories first or last, alternating: the position of a sub-directory among the files changes too
+            for rel in order:
+                d = os.path.dirname(rel)
+                if d:
+                    os.makedirs(os.path.join(proj, d), exist_ok=True)
+                open(os.path.join(proj, rel), 'w').write(files[rel])
+            listings.add(tuple(os.listdir(proj)) + tuple(os.listdir(os.path.join(proj, 'sub'))))
+            cwd = os.path.join(root, 'cwd')
+            os.makedirs(cwd)
+            p = subprocess.run([binary, '--path', '../proj'], cwd=cwd, stdout=subprocess.PIPE, stderr=subprocess.PIPE)
+            rp = os.path.join(cwd, 'solstat_report.md')
+            text = open(rp, 'rb').read() if p.returncode == 0 and os.path.exists(rp) else ('exit %d' % p.returncode).encode()
+            seen.setdefault(text, []).append(order)
+            chk.states += 1
+        chk.validated += 1
+        chk.extra['creation_histories'] = '%d creation orders of the same content, %d different listing orders seen by the binary' % (len(orders), len(listings))
+        if len(seen) > 1:
+            a, b_ = list(seen)[:2]
+            k = next((i for i in range(min(len(a), len(b_))) if a[i] != b_[i]), min(len(a), len(b_)))
+            chk.violation('run:report-depends-on-discovery-order', 'the same directory content created in different orders (so that the file system lists it in different '
+                          'orders) gives %d different reports; first difference at byte %d: %r / %r; creation orders %r and %r' % (
+                              len(seen), k, a[max(0, k - 40):k + 30], b_[max(0, k - 40):k + 30], seen[a][0], seen[b_][0]),
+                          {'job': 'solstat', 'files': files, 'creation_orders': [seen[a][0], seen[b_][0]]})
+        else:
+            chk.ok()
+    finally:
+        shutil.rmtree(base, ignore_errors=True)
 
 
 def body(chk):
